@@ -140,10 +140,8 @@ def check_file(case, path, buffers, assemblies, line_length):
         for name, rows in objects:
             _, _, specs = G.check_agp_object(name, rows)
             got_rows.append([name, [s[:5] if s[0] == "F" else s[:2] for s in specs]])
-        got_rows_cmp = [g for g in got_rows]
-        want_cmp = [w for w in want_rows if w[1]]
-        if got_rows_cmp != want_cmp:
-            problems.append((f"derived assembly at buffer {ref} is {got_rows_cmp}, maximal runs of the file are {want_cmp}", {"buffer": ref}))
+        if got_rows != want_rows:
+            problems.append((f"derived assembly at buffer {ref} is {got_rows}, maximal runs of the file are {want_rows}", {"buffer": ref}))
         seqs = case.seqs()
         for label, scs in assemblies:
             want = [(n, G.apply_rows(seqs, specs)) for n, specs in scs]
@@ -287,8 +285,8 @@ def replay(inp):
 def run(tier, seed, **opts):
     rng = random.Random(seed)
     quick = tier == "quick"
-    max_mask = 6 if quick else 8
-    n_random = 120 if quick else 2500
+    max_mask = 6 if quick else 9
+    n_random = 120 if quick else 4000
     col = Collector(
         f"files: every ACGT/other mask up to {max_mask} residues x widths 1..5 x LF/CRLF x final newline, and random files "
         "(1-3 records up to 200/400 residues, runs ending on line boundaries); per file the buffer sizes 1,2,3,5,7,11,13, "
@@ -350,7 +348,7 @@ def run(tier, seed, **opts):
                 col.fail(m, inp)
             peaks_seen[f"buffer {bs} x {nb}, line {width}"] = peaks
             for label in peaks or {"none": 0}:
-                col.case(("memory", bs, nb, width, label), sample=dict(inp, measured_peaks=peaks) if label.startswith("streaming a long reverse") else None)
+                col.case(("memory", bs, nb, width, label), sample=inp if label.startswith("streaming a long reverse") else None)
     return col.result(
         bounds=(
             f"masks to length {max_mask} (quick: every other layout) x 20 layouts; {n_random} random files; <= {12 if quick else 30} buffer sizes per "
@@ -358,5 +356,6 @@ def run(tier, seed, **opts):
             + "; limit 16 x buffer + 64 KiB (+ 8 x line while indexing)"
         ),
         exhaustive=False,
-        measured_peaks=peaks_seen,
+        # a measurement, not part of the deterministic result: varies by a few hundred bytes between runs
+        measured_peaks_bytes=peaks_seen,
     )
